@@ -64,8 +64,11 @@ def gen_long_chain(R):
     pool = R.choice([['A'], ['PEO', 'PMA'], ['A', 'B', 'C']])
     orders = R.choice([(1,), (1, 1, 1, 2), (0, 1, 2, 3, 4)])
     off = R.choice([0, 0, 5])
-    nodes = [[off + i, R.choice(pool)] for i in range(n)]
-    edges = [[off + i, off + i + 1, R.choice(orders)] for i in range(n - 1)]
+    keys = [off + i for i in range(n)]
+    if R.chance(0.5):
+        R.shuffle(keys)         # the smallest key (where the writer starts) then lies inside the chain
+    nodes = [[keys[i], R.choice(pool)] for i in range(n)]
+    edges = [[keys[i], keys[i + 1], R.choice(orders)] for i in range(n - 1)]
     return make_case(nodes, edges, {'random', 'long_chain_1000+'})
 
 
@@ -101,7 +104,7 @@ def gen(R, tier):
         keys = ['k%02d' % i for i in perm]
     else:
         keys = perm
-    pool = R.choice([['A'], ['A', 'B'], ['PEO', 'PMA', 'OH', 'X1', 'b_2']])
+    pool = R.choice([['A'], ['A', 'B'], ['PEO', 'PMA', 'OH', 'X1', 'b_2'], ['αGlc', 'β', 'A', 'PEO']])      # (names are alphanumeric, not necessarily ASCII)
     nodes = [[keys[i], R.choice(pool)] for i in range(n)]
     order = list(range(n))
     if R.chance(0.5):
@@ -111,6 +114,10 @@ def gen(R, tier):
     if R.chance(0.5):
         R.shuffle(el)
     case = make_case(nodes, el, {'random', 'keys:' + keykind} | ({'dense'} if dense else set()))
+    if R.chance(0.12):
+        # the graph is handed over read-only: frozen, or as the subgraph view of one component of a mixture
+        case['input']['readonly'] = R.choice(['frozen', 'view'])
+        case['features'] = sorted(set(case['features']) | {'read_only_graph'})
     if R.chance(0.1):
         # bond orders taken from a numpy array (np.int64 scalars)
         case['input']['np_orders'] = True
@@ -127,6 +134,13 @@ def build(case):
         import numpy as np
     for a, b, o in case['input']['edges']:
         g.add_edge(a, b, order=np.int64(o) if np_orders else o)
+    ro = case['input'].get('readonly')
+    if ro == 'frozen':
+        return nx.freeze(g)
+    if ro == 'view':
+        keep = list(g.nodes)
+        g.add_node('other-molecule', fragname='W')
+        return g.subgraph(keep)
     return g
 
 
